@@ -49,6 +49,13 @@ FRAME_SPECS = r"""
         &&& self.temporary_base == o.temporary_base
         &&& self.loop_stack@ == o.loop_stack@
     }
+    spec fn same_state_but_loops(&self, o: &Frame) -> bool {
+        &&& self.local_registers@ == o.local_registers@
+        &&& self.temporary_base == o.temporary_base
+        &&& self.register_stack@ == o.register_stack@
+        &&& self.temporary_count == o.temporary_count
+        &&& self.temporaries_used_in_frame == o.temporaries_used_in_frame
+    }
     // observational equality of everything the allocator owns
     spec fn same_state(&self, o: &Frame) -> bool {
         &&& self.same_but_stack(o)
@@ -260,6 +267,40 @@ UNIT = Unit(
         r matches Err(e) ==> (e is LocalRegisterOverflow && old(self).local_registers@.len() == old(self).temporary_base) || e is UnableToCommitRegister,   // @err_kinds
 """,
         ),
+
+        # ---- loop bookkeeping (break/continue jump placeholders of C01/C05)
+        Fn(F, "impl Frame :: fn push_loop", props=P, spec=r"""
+    ensures
+        final(self).loop_stack@.len() == old(self).loop_stack@.len() + 1,
+        final(self).loop_stack@.drop_last() == old(self).loop_stack@,                                   // @outer_loops_untouched
+        final(self).loop_stack@.last().start_ip == loop_start_ip,                                        // @continue_target_recorded
+        final(self).loop_stack@.last().result_register == result_register,
+        final(self).loop_stack@.last().jump_placeholders@.len() == 0,
+        final(self).same_state_but_loops(old(self)),
+"""),
+        Fn(F, "impl Frame :: fn push_loop_jump_placeholder", props=P, spec=r"""
+    ensures
+        // a `break` placeholder is recorded on the INNERMOST loop, or it is an error outside of loops
+        r is Ok <==> old(self).loop_stack@.len() > 0,                                                    // @break_outside_loop_is_error
+        r is Ok ==> final(self).loop_stack@.len() == old(self).loop_stack@.len()
+            && final(self).loop_stack@.drop_last() == old(self).loop_stack@.drop_last()
+            && final(self).loop_stack@.last().jump_placeholders@ == old(self).loop_stack@.last().jump_placeholders@.push(placeholder_ip)
+            && final(self).loop_stack@.last().start_ip == old(self).loop_stack@.last().start_ip,         // @recorded_on_innermost_loop
+        r is Err ==> final(self).loop_stack@ == old(self).loop_stack@,
+        final(self).same_state_but_loops(old(self)),
+"""),
+        Fn(F, "impl Frame :: fn pop_loop", props=P, spec=r"""
+    ensures
+        r is Ok <==> old(self).loop_stack@.len() > 0,
+        r matches Ok(l) ==> l == old(self).loop_stack@.last() && final(self).loop_stack@ == old(self).loop_stack@.drop_last(),   // @pops_innermost_loop
+        r is Err ==> final(self).loop_stack@ == old(self).loop_stack@,
+        final(self).same_state_but_loops(old(self)),
+"""),
+        Fn(F, "impl Frame :: fn current_loop", props=P, spec=r"""
+    ensures
+        (r is Some) == (self.loop_stack@.len() > 0),
+        r matches Some(l) ==> *l == self.loop_stack@.last(),                                             // @innermost_loop
+"""),
     ],
     epilogue=r"""
 // ---- composition lemma: any two registers that are live at the same time differ.
